@@ -314,3 +314,4 @@ uint64_t slot_alloc_bytes(const Program& P, const Slot& s, const std::vector<voi
 bool op_is_integer_output(const Program& P, const Call& c, int k);
 /** set by self-checking life-cycle operations (thread local): number of wrong coefficients in the last op_invoke */
 int& op_selfcheck_errors();
+int& op_leak_errors();
